@@ -299,7 +299,7 @@ func init() {
 			}
 			ps := perms(len(entries))
 			perm := ps[c.Free(len(ps), "perm")]
-			style := c.Free(3, "valuestyle") // 0 small uint, 1 nested array, 2 nested map
+			style := c.Free(4, "valuestyle") // 0 small uint, 1 nested array, 2 nested map, 3 large byte string from a scratch buffer the caller reuses
 			// the two encoders of one entry are independent: 0 key first (as every caller in the repository
 			// does), 1 value first, 2 value started, then the key, then the rest of the value
 			order := c.Free(3, "callback order: key first / value first / interleaved")
@@ -318,11 +318,32 @@ func init() {
 					refv = refcbor.EncArray(refcbor.EncUint(val), refcbor.EncText("x"))
 				case 2:
 					refv = refcbor.MustMap(refcbor.KV{K: refcbor.EncText("bb"), V: refcbor.EncUint(val)}, refcbor.KV{K: refcbor.EncText("a"), V: refcbor.EncUint(1)}, refcbor.KV{K: refcbor.EncUint(300), V: refcbor.EncBytes(nil)})
+				case 3:
+					// sizes around a plausible "large write" threshold; the entry is generated from a scratch
+					// buffer that is wiped right after GenerateMapEntry returns, long before EncodeMap runs
+					n := []int{4095, 4096, 8192}[int(val)%3]
+					big := bytes.Repeat([]byte{byte(val) | 1}, n)
+					refv = refcbor.EncBytes(big)
 				}
 				kvs = append(kvs, refcbor.KV{K: k.ref, V: refv})
 				_ = pos
 				kk := k
+				var scratch []byte
+				if style == 3 {
+					n := []int{4095, 4096, 8192}[int(val)%3]
+					scratch = bytes.Repeat([]byte{byte(val) | 1}, n)
+				}
 				mes = append(mes, cbor.GenerateMapEntry(func(ke, ve *cbor.Encoder) {
+					if style == 3 {
+						if order == 0 {
+							kk.enc(ke)
+						}
+						ve.EncodeByteString(scratch)
+						if order != 0 {
+							kk.enc(ke)
+						}
+						return
+					}
 					if order == 0 {
 						kk.enc(ke)
 					} else {
@@ -354,6 +375,9 @@ func init() {
 						})
 					}
 				}))
+				for i := range scratch {
+					scratch[i] = 0 // the caller's buffer is reused
+				}
 			}
 			var got bytes.Buffer
 			err := cbor.NewEncoder(&got).EncodeMap(mes)
@@ -484,7 +508,7 @@ func init() {
 	register(&mc.Property{
 		ID:    "C11",
 		Level: "model_checking",
-		Rule:  "choice-tree enumeration of encoder inputs: every uint64/int64 within +-64 of each head boundary and every 2^k+-1; byte/text strings of every length 0..300 and around 65536; all text contents of length <=3 over a 15-byte UTF-8 boundary alphabet (incl. U+FFFD); every subset of <=4 (quick) / <=5 (thorough) keys from a pool of 10 mixed-type keys in every permutation plus every duplicated key, three value styles, the entry callback writing key first / value first / interleaved; all encoder call sequences up to depth 3 (quick) / 5 (thorough) over an 11-call menu. A case is non-trivial when it produced output that was compared byte-for-byte with the independent canonical encoder (or was a refused input); distinct by output/input hash.",
+		Rule:  "choice-tree enumeration of encoder inputs: every uint64/int64 within +-64 of each head boundary and every 2^k+-1; byte/text strings of every length 0..300 and around 65536; all text contents of length <=3 over a 15-byte UTF-8 boundary alphabet (incl. U+FFFD); every subset of <=4 (quick) / <=5 (thorough) keys from a pool of 10 mixed-type keys in every permutation plus every duplicated key, four value styles (the fourth: a 4095 / 4096 / 8192-byte string taken from a scratch buffer that the caller wipes before EncodeMap runs), the entry callback writing key first / value first / interleaved; all encoder call sequences up to depth 3 (quick) / 5 (thorough) over an 11-call menu. A case is non-trivial when it produced output that was compared byte-for-byte with the independent canonical encoder (or was a refused input); distinct by output/input hash.",
 		Assumptions: []string{
 			"refcbor (independent canonical encoder/decoder written from RFC 8949) is correct",
 			"values between the enumerated boundary windows behave like their neighbours in the same head-size class (small-scope hypothesis)",
